@@ -18,7 +18,7 @@ extra_trusted = c19.extra_trusted
 
 KINDS = ["MUSIC", "BANNER", "BACKGROUND", "CDTITLE", "JACKET", "CDIMAGE", "DISC"]
 ATTR = {"MUSIC": "music", "BANNER": "banner", "BACKGROUND": "background", "CDTITLE": "cdtitle", "JACKET": "jacket", "CDIMAGE": "cdimage", "DISC": "disc"}
-HITS = ["Cafe\u0301-bn.png", "cafe\u0301 banner.PNG", "banner.png", "Song Banner.JPG", "songbn.png", "bn.png", "background.jpg", "song-bg.png", "BG.PNG", "cdtitle.png", "my cdtitle.gif", "jk_song.png",
+HITS = ["old\\banner.png", "art\\cover-bn.png", "Cafe\u0301-bn.png", "cafe\u0301 banner.PNG", "banner.png", "Song Banner.JPG", "songbn.png", "bn.png", "background.jpg", "song-bg.png", "BG.PNG", "cdtitle.png", "my cdtitle.gif", "jk_song.png",
         "Jacket.png", "albumart.jpg", "song-cd.png", "song disc.png", "song title.png", "song.ogg", "Song.MP3", "audio.wav", "x.oga",
         "Mr. Saxobeat-BG.png", "Mr. Saxobeat bn.png", "Vol.2 jacket.jpg", "ver1.5 CDTitle.gif", "Feat. Someone-cd.png", "St. Elmo Title.png", "a.b.ogg"]
 NEAR = ["bann.png", "xbnx.png", "bgx.png", "song-bg2.png", "cdtitl.png", "xjk_song.png", "song-cdx.png", "songdisc.png", "discs.png", "song.og", "song.mp4",
@@ -83,7 +83,8 @@ def gen(rng, i, tier):
 
 def build_tree(c):
     song = c19.dec_tree(c["dir"])
-    sm = "".join("#%s:%s;\n" % (k, v) for k, v in c["props"].items()) + "#TITLE:t;\n"
+    esc = lambda v: v.replace("\\", "\\\\").replace(":", "\\:").replace(";", "\\;")          # MSD escapes: the value read back is the one meant
+    sm = "".join("#%s:%s;\n" % (k, esc(v)) for k, v in c["props"].items()) + "#TITLE:t;\n"
     song["song.sm"] = sm.encode("utf-8")
     pack = {"song": song}
     for n in c["pack"]["inside"]:
